@@ -177,6 +177,11 @@ var arrFns = []struct {
 	{"big_array_replace", []string{"array_replace"}, `json_encode(array_replace((function() { $a = []; for ($i = 0; $i < 300; $i++) { $a["k" . (($i * 37) % 300)] = ($i * 53) % 97; } return $a; })(), ["k299" => -1, "new" => -2]))`},
 	{"big_array_unique_list", []string{"array_unique", "array_map", "range"}, `json_encode(array_unique(array_map(function($i) { return $i % 140; }, range(1, 300))))`},
 	{"big_in_array_object", nil, `(function() { $o = new stdClass(); for ($i = 0; $i < 200; $i++) { $p = "p" . (($i * 37) % 200); $o->$p = $i; } return json_encode($o) . count(get_object_vars($o)); })()`},
+	// JSON documents whose KEYS use every escape the grammar has (\/ is what PHP's own json_encode writes for a slash)
+	{"json_escaped_keys_obj", []string{"json_decode"}, `json_encode(json_decode('{"q\/z":1,"b\/a":2,"m":3,"\ud83d\ude00k":4,"a\u0041":5,"t\tb":6,"z\\y":7,"c\"d":8,"y\bf":9,"n\nl":10}'))`},
+	{"json_escaped_keys_vars", []string{"json_decode", "get_object_vars"}, `implode(",", array_keys(get_object_vars(json_decode('{"q\/z":1,"b\/a":2,"m":3,"\ud83d\ude00k":4,"k\/k":5,"a":6}'))))`},
+	{"json_escaped_keys_nested", []string{"json_decode"}, `json_encode(json_decode('{"o":{"x\/y":1,"w\/v":2,"u":3,"\ud83d\ude03":4},"l":[{"s\/t":1,"r\/q":2,"p":3}]}'))`},
+	{"json_escaped_keys_assoc", []string{"json_decode"}, `json_encode(json_decode('{"q\/z":1,"b\/a":2,"m":3,"\ud83d\ude00k":4}', true))`},
 	{"big_str_word_count", []string{"array_count_values", "explode"}, `json_encode(array_count_values(explode(" ", str_repeat("q b z a m y c n ", 40))))`},
 }
 
